@@ -15,5 +15,6 @@ import (
 	_ "verif/harness/c16"
 	_ "verif/harness/c17"
 	_ "verif/harness/c18"
+	_ "verif/harness/c19"
 	_ "verif/harness/c20"
 )
